@@ -174,7 +174,7 @@ def derive(rng, pool):
         if E or a.inf:
             i = rng.choice([0, 1, -1])
         else:
-            i = edge_index(rng, len(a))
+            i = edge_index(rng, len(a)) if rng.random() < 0.5 or not len(a) else rng.randint(-len(a), len(a) - 1)
             if op == "insert" and i == len(a):
                 i = 0           # insert at len: append or error (book silent) - not generated
         v = rng.randint(-3, 9)
@@ -196,7 +196,9 @@ def derive(rng, pool):
         if E or a.inf:
             i, j = 0, 1
         else:
-            i, j = edge_index(rng, len(a)), edge_index(rng, len(a))
+            n_ = len(a)
+            # mostly two valid positions, of either sign and in either order; sometimes the edges
+            i, j = [(rng.randint(-n_, n_ - 1) if n_ and rng.random() < 0.7 else edge_index(rng, n_)) for _ in range(2)]
         src = f"{a_name}.swap({ilit(i)}, {ilit(j)})"
         if E or a.inf:
             return src, Err(), op
